@@ -110,6 +110,36 @@ def run(ctx: Ctx) -> Result:
                     ok, v = B.auth([w.bytes, lockc.bytes], cache)
                     res.note_case((root, tuple(seeds), 'window-of-link', j, what))
                     if ok: B.viol(f'chain of {n}: certificate {j} is {what}, all others are current', {'root_seed': root.hex(), 'chain_length': n, 'link': j, 'scripts': [w.bytes.hex(), lockc.bytes.hex()], 'cache': vmrun.cache_str(cache, False)}, False, v)
+        # the verifier's slack threshold passed for this run governs the checks inside the chain lock's recursive function like
+        # it governs the single lock's (accept iff in window and (threshold <= 0 or t - now < threshold))
+        wgood_ = T.make_delegate_key_chain_witness(seeds[-1], list(reversed(certs)), sf, flags)
+        w1_ = T.make_delegate_key_witness(seeds[0], certs[0], sf, flags) if n == 1 else None
+        for thr_, lead in ((10, 30), (10, 5), (600, 300), (600, 700), (0, 100000), (60, 30), (60, 100), (3600, 59)):
+            t_ = min(now, end - 1); now_ = t_ - lead
+            if now_ < 0 or not begin <= t_ < end: continue
+            cfg2 = vmrun.Cfg(now=now_, ts=thr_); cache2 = {**sf, 'timestamp': t_}
+            want2 = thr_ <= 0 or lead < thr_
+            for what_, w_, l_ in (('chain lock', wgood_, lockc), ('single delegate lock', w1_, lock1)):
+                if w_ is None: continue
+                o2 = vmrun.run_impl(cfg2, cache2, w_.bytes + l_.bytes)
+                f2 = vmrun.fields(o2); got2 = f2['status'] == 'OK' and f2.get('stack') == 'ff'
+                res.note_case(('per-run-slack', what_, thr_, lead, root, n))
+                if got2 != want2:
+                    B.viol(f'{what_} (chain of {n}) as one script, ts_threshold = {thr_} passed for this run, t - now = {lead}',
+                           {'root_seed': root.hex(), 'cfg': cfg2.line(), 'cache': vmrun.cache_str(cache2, False), 'scripts': [w_.bytes.hex(), l_.bytes.hex()]}, want2, o2[:80])
+        # signature extensions run before the final signature check wherever the lock makes it (the chain lock checks inside a
+        # function, inside an else branch): a logging extension is compared with the model's log, a raising one must sink the run
+        for sx in (('l7',), ('r',)):
+            cfgx = vmrun.Cfg(now=now); cfgx.sigexts = sx
+            for what_, w_, l_ in (('chain lock', wgood_, lockc), ('single delegate lock', w1_, lock1)):
+                if w_ is None: continue
+                ox = vmrun.auth_impl(cfgx, cache, [w_.bytes, l_.bytes])
+                if len(B.records) < 6000: B.records.append((cfgx, dict(cache), [w_.bytes, l_.bytes], ox))
+                res.note_case(('sigext', what_, sx, root, n))
+                wantx = sx == ('l7',)
+                if (ox.split(' ')[0] == 'T') != wantx:
+                    B.viol(f'{what_} (chain of {n}) with a signature extension installed that ' + ('only logs' if wantx else 'raises'),
+                           {'root_seed': root.hex(), 'cfg': cfgx.line(), 'cache': vmrun.cache_str(cache, False), 'scripts': [w_.bytes.hex(), l_.bytes.hex()]}, wantx, ox[:80])
         # a witness that defines function 0 itself: the lock's own `def 0` must be the one that runs
         squat = T.Script.from_src(rng.choice(['def 0 { pop0 true }', 'def 0 { true }', 'def 0 { pop0 pop0 true }'])).bytes
         ok, v = B.auth([squat, lockc.bytes], cache)
